@@ -28,10 +28,10 @@ Proof.
   apply wrap64_small. unfold two64, two63 in *. lia.
 Qed.
 
-Lemma vote_period_i_spec h p : valid_period p -> valid_height h ->
+Lemma vote_period_i_spec h p : valid_period p -> valid_height p h ->
   vote_period_i h p = Some (prevote_end h p, vote_end h p).
 Proof.
-  unfold valid_period, valid_height, max_vote_period, two63. intros Hp Hh.
+  unfold valid_period, valid_height, max_vote_period, two63. intros Hp [Hh0 Hh].
   unfold vote_period_i.
   assert (Hip : to_int64 p = p) by (apply to_int64_small; unfold two63; lia).
   rewrite Hip.
@@ -48,12 +48,12 @@ Proof.
 Qed.
 
 (* the two computations of the round agree *)
-Lemma round_id_agree h p : valid_period p -> valid_height h ->
+Lemma round_id_agree h p : valid_period p -> valid_height p h ->
   exists s pe ve, round_start_u h p = Some s /\ vote_period_i h p = Some (pe, ve)
                   /\ pe = s + p - 1 /\ ve = s + 2 * p - 1.
 Proof.
   intros Hp Hh. exists (rstart h p), (prevote_end h p), (vote_end h p).
-  split; [apply round_start_u_spec; auto; unfold valid_height, two63, max_vote_period in *; lia|].
+  split; [apply round_start_u_spec; auto; unfold valid_height, valid_period, two63, max_vote_period in *; lia|].
   split; [apply vote_period_i_spec; auto|]. unfold prevote_end, vote_end. lia.
 Qed.
 
